@@ -31,10 +31,16 @@ RELS = ["shift", "affine", "weights", "coslat", "scale", "reference"]
 MODELS = ["EOF", "EOF", "MCA", "CCA", "CPCCA"]
 
 
+CLASSES = [f"{r}/{m}" for r in RELS for m in ["EOF", "MCA", "CCA", "CPCCA"]]  # strata of the runner (relation x model)
+
+
 @st.composite
-def strategy(draw):
-    rel = draw(st.sampled_from(RELS))
-    model = draw(st.sampled_from(MODELS))
+def strategy(draw, cls=None):
+    if cls is None:
+        rel = draw(st.sampled_from(RELS))
+        model = draw(st.sampled_from(MODELS))
+    else:
+        rel, model = cls.split("/")
     lay = draw(L.layout(lat=rel == "coslat", max_sd=2, max_fd=2, min_samples=8, max_items=2, max_vars=2, min_features=2))
     lays = [lay]
     if model != "EOF":
@@ -45,8 +51,23 @@ def strategy(draw):
             "shift_exp": draw(st.sampled_from([0, 2, 4, 6])), "scale_exp": draw(st.sampled_from([1, 2, 3])),
             "c": draw(st.floats(-4, 4)), "c_sign": draw(st.sampled_from([1, 1, -1])),
             "field": draw(st.integers(0, 1)), "lat_name": draw(st.sampled_from(LAT_NAMES)), "poles": draw(st.booleans()),
+            "coslat_fields": draw(st.sampled_from(["both", "both", "x", "y"])),  # cross-set: use_coslat per field
             "alpha": draw(st.sampled_from([0.0, 0.5, 1.0, 0.3])), "standardize": draw(st.booleans()), "center": draw(st.integers(0, 3)) > 0,
             "kfrac": draw(st.floats(0, 1))}
+
+
+def extra_cases(tier):
+    """Every accepted latitude name once per model family and pole setting (the names are a closed catalogue)."""
+    def lay(shift, nlat):
+        pool = [{"name": "lat", "size": nlat, "kind": "float", "lseed": 3 + shift}, {"name": "lon", "size": 2, "kind": "range", "lseed": 4 + shift}]
+        return {"container": "da", "sdims": [{"name": "time", "size": 12, "kind": "range", "lseed": 1}],
+                "items": [{"type": "da", "fpool": pool, "vars": [{"name": "field", "fd": [0, 1], "oseed": shift}]}], "extra_coords": False, "seed": 50 + shift}
+
+    for i, name in enumerate(LAT_NAMES):
+        for j, model in enumerate(["EOF", "MCA", "CPCCA"]):
+            yield {"rel": "coslat", "model": model, "lays": [lay(0, 3)] + ([lay(7, 2)] if model != "EOF" else []), "seed": 100 + i, "shift_exp": 0, "scale_exp": 1,
+                   "c": 1.0, "c_sign": 1, "field": 0, "lat_name": name, "poles": (i + j) % 2 == 0, "coslat_fields": ["both", "x", "y"][(i + j) % 3],
+                   "alpha": 0.5, "standardize": False, "center": True, "kfrac": 0.5}
 
 
 def feature_field(obj, sdims, fn):
@@ -94,7 +115,7 @@ def fit(desc, data, sdims, k, weights=None, center=True, standardize=False, cosl
         mod = xe.single.EOF(n_modes=k, center=center, standardize=standardize, use_coslat=coslat, solver="full")
         mod.fit(data[0], sdims, weights=weights[0] if weights else None)
         return mod
-    kw = dict(n_modes=k, standardize=standardize, use_coslat=coslat, use_pca=False, solver="full")
+    kw = dict(n_modes=k, standardize=standardize, use_coslat=list(coslat) if isinstance(coslat, (list, tuple)) else coslat, use_pca=False, solver="full")
     if m == "CPCCA":
         kw["alpha"] = desc["alpha"]
     mod = getattr(xe.cross, m)(**kw)
@@ -185,7 +206,13 @@ def run_case(desc, ctx):
         w = [L.map_items(feature_field(d, sdims, np.ones),
                          lambda f: (f * np.sqrt(np.cos(np.deg2rad(f[name])).clip(0, 1))) if not isinstance(f, xr.Dataset)
                          else xr.Dataset({v: f[v] * np.sqrt(np.cos(np.deg2rad(f[v][name])).clip(0, 1)) for v in f.data_vars})) for d in data]
-        a = do_fit("coslat", data, sdims, k, center=cen if single else True, standardize=std, coslat=True)
+        flags = True
+        if not single:
+            cf = desc.get("coslat_fields", "both")
+            flags = [cf in ("both", "x"), cf in ("both", "y")]
+            ctx.event(f"coslat_fields={cf}")
+            w = [wi if fl else None for wi, fl in zip(w, flags)]
+        a = do_fit("coslat", data, sdims, k, center=cen if single else True, standardize=std, coslat=flags)
         b = do_fit("weights", data, sdims, k, weights=w, center=cen if single else True, standardize=std)
         fac_s = fac_sv = 1.0
     elif rel == "scale":
